@@ -1634,14 +1634,19 @@ def idx_list_to_index_array(idx_list):
     """
     if len(idx_list) == 0:
         return None
-    elif len(idx_list) == 1:
-        return idx_list[0].as_array()
-    else:
-        idx = idx_list[0]
-        arr = np.arange(shape_to_len(idx._src_shape)).reshape(idx._src_shape)
-        for i in range(len(idx_list)):
-            arr = idx_list[i].indexed_val(arr)
-        return arr
+
+    idx = idx_list[0]
+    if len(idx_list) == 1:
+        if idx._src_shape is None:
+            return idx.as_array()
+        if idx._flat_src or len(idx._src_shape) < 2:
+            # resolves negative indices against the source size
+            return idx.shaped_array()
+
+    arr = np.arange(shape_to_len(idx._src_shape)).reshape(idx._src_shape)
+    for i in range(len(idx_list)):
+        arr = idx_list[i].indexed_val(arr)
+    return arr
 
 
 def apply_idx_list(arr, idx_list):
